@@ -111,9 +111,13 @@ DECODERS = {
 
 def h_arbitrary(ctx, name, n):
     dec = DECODERS[name][0]
-    data = ctx.octets("data", n)
+    # the buffer is handed over as bytes for even lengths and as a bytearray for odd ones; a decoder must not write to it
+    data = ctx.octets("data", n, mutable=bool(n % 2))
+    before = list(items_of(data))
     e, u = call(dec, data)
     check_outcome(ctx, e, name)
+    after = items_of(data)
+    ctx.holds("the caller's input buffer is left as it was", len(after) == len(before) and sym_and(*[a == b for a, b in zip(after, before)]))
 
 
 def h_twin(ctx):
